@@ -1,7 +1,7 @@
 ------------------------------- MODULE LdrOps -------------------------------
 (* Public loader operations as a relation (see TblOps.tla for the pattern).
 
-   op.name:  add_tomogram | derive (op.how: head/tail/filter/sample/sort/subset_list/copy/binning)
+   op.name:  add_tomogram | add_loader / from_loaders (op.form: single/batch2, op.codes) | derive (op.how: head/tail/filter/sample/sort/subset_list/copy/binning)
            | observe (op.via: asnumpy/load_each/load_iter/dask/align/score/apply/landscape)
            | groupby (op.col, op.gop: none/filter/head/tail/sample/align)
    outcome:  [L, T, res, obs, groups, groups2, err]
@@ -41,6 +41,8 @@ DeriveL(L, how, tab) == Loader(L.kind, tab, ImgsUsed(L, tab), L.img, L.bin * Bin
 NextRes(op, L, T) ==
   CASE op.name = "add_tomogram" -> {AddTomogram_(L, T, NextImgId(L))}
     [] op.name = "derive"       -> {DeriveL(L, op.how, r) : r \in {x \in TabResults(op.how, L.tab) : ~IsErr(x)}}
+    [] op.name = "add_loader"   -> {AddLoader_(L, T, op.form, op.codes)}
+    [] op.name = "from_loaders" -> {FromLoaders_(L, T, op.form, op.codes)}
     [] OTHER                    -> {L}
 
 (* acceptor *)
@@ -66,6 +68,21 @@ Accepts(op, L, T, o) ==
   CASE op.name = "add_tomogram" ->
          /\ o.err = "" /\ SameTab(o.T, T)
          /\ (\E id \in FreshIds(L) : SameLdr(o.L, AddTomogram_(L, T, id))) /\ SameLdr(o.res, o.L)
+    \* add_loader (mutates the receiver like add_tomogram) and from_loaders (a new batch; the receiver is its first member): the rows
+    \* of the merged batch are the rows of both, each tagged with ITS tomogram (the order of the rows is not claimed), X's molecules
+    \* are untouched, and row i of the merged batch loads from row i's tomogram
+    [] op.name = "add_loader" ->
+         LET want == AddLoader_(L, T, op.form, op.codes) IN
+         /\ o.err = "" /\ SameTab(o.T, T)
+         /\ o.L.kind = "batch" /\ o.L.bin = L.bin /\ o.L.imgs = want.imgs
+         /\ o.L.tab.cols = want.tab.cols /\ IsPermOf(o.L.tab.rows, want.tab.rows)
+         /\ SameLdr(o.res, o.L) /\ o.obs = LoadP(o.L)
+    [] op.name = "from_loaders" ->
+         LET want == FromLoaders_(L, T, op.form, op.codes) IN
+         /\ o.err = "" /\ Untouched(L, T, o)
+         /\ o.res.kind = "batch" /\ o.res.bin = 1 /\ o.res.imgs = want.imgs
+         /\ o.res.tab.cols = want.tab.cols /\ IsPermOf(o.res.tab.rows, want.tab.rows)
+         /\ o.obs = LoadP(o.res)
     [] op.name = "derive" ->
          IF TabMustFail(op.how, L.tab) THEN o.err # "" /\ Untouched(L, T, o)
          ELSE /\ o.err = "" /\ Untouched(L, T, o)
@@ -91,9 +108,11 @@ Why(op, L, T, o) ==
   IF Accepts(op, L, T, o) THEN "ok"
   ELSE IF o.err # "" /\ ~(op.name = "derive" /\ TabMustFail(op.how, L.tab)) THEN "UnexpectedError"
   ELSE IF op.name \in {"fork", "swap"} /\ Untouched(L, T, o) THEN "ForkedLoaderDiffers"
-  ELSE IF op.name # "add_tomogram" /\ ~Untouched(L, T, o) THEN "ParentMutated"
-  ELSE IF op.name = "add_tomogram" /\ ~SameTab(o.T, T) THEN "OperandMutated"
+  ELSE IF op.name \notin {"add_tomogram", "add_loader"} /\ ~Untouched(L, T, o) THEN "ParentMutated"
+  ELSE IF op.name \in {"add_tomogram", "add_loader"} /\ ~SameTab(o.T, T) THEN "OperandMutated"
   ELSE IF op.name = "add_tomogram" THEN "WrongRegistry"
+  ELSE IF op.name = "add_loader" THEN (IF o.obs # LoadP(o.L) THEN "RowNotAligned" ELSE "WrongRegistry")
+  ELSE IF op.name = "from_loaders" THEN (IF o.obs # LoadP(o.res) THEN "RowNotAligned" ELSE "MergedLoaderWrong")
   ELSE IF op.name = "derive" /\ ~TabAccepts(op.how, L.tab, o.res.tab) THEN "DerivedRowsWrong"
   ELSE IF op.name = "derive" THEN "DerivedLoaderWrong"
   ELSE IF op.name = "observe" /\ ~ObsOk(L, o.obs) THEN "RowNotAligned"
